@@ -86,7 +86,7 @@ POOL_TECHNIQUE = ("Lean 4 proof over a small-step transition system (all schedul
 CPUS = [1, 2, 3, 8, 16, 32]
 WATCH_MS = 10000          # in-process hang watchdog (ms); the calls normally take < 10 ms
 TIMEOUT = 25.0            # parent watchdog (s), above the in-process one
-MODELS = ["jc", "k2p", "pdist", "rawdist", "f81", "tn93", "f84"]
+MODELS = ["jc", "k2p", "pdist", "pdistamb", "rawdist", "f81", "tn93", "f84"]
 AMBIG = "RYSWKMBDHVN"
 COMP = {"A": "T", "C": "G", "G": "C", "T": "A", "R": "Y", "Y": "R", "S": "S", "W": "W", "K": "M", "M": "K",
         "B": "V", "V": "B", "D": "H", "H": "D", "N": "N", "-": "-"}
@@ -136,10 +136,10 @@ def model_opts(rng, exempt_internal=False):
     m = rng.choice(MODELS)
     rm = rng.choice([0, 0, 1])
     gm = 0
-    if m in ("rawdist", "pdist"):
+    if m in ("rawdist", "pdist", "pdistamb"):
         gm = rng.choice([0, 2] if exempt_internal else [0, 1, 2])
     alpha = "0"
-    if m not in ("rawdist", "pdist") and rng.random() < 0.4:
+    if m not in ("rawdist", "pdist", "pdistamb") and rng.random() < 0.4:
         alpha = rng.choice(["0.1", "0.5", "1", "2", "10"])
     return m, rm, gm, alpha
 
